@@ -615,7 +615,7 @@ func (f *Frame) zeroInit(ref Term, t types.Type, st *State) {
 		s := e.U.sortOf(x.Elem(), false)
 		fam := memFam(s)
 		z := e.U.zeroOf(x.Elem(), s)
-		e.setFamily(st, fam, store(e.family(st, fam, memSort(s)), ref, Term{fmt.Sprintf("((as const (Array Int %s)) %s)", s, z.S), arraySort(SInt, s)}))
+		e.setFamily(st, fam, store(e.family(st, fam, memSort(s)), ref, e.U.constArray(SInt, s, z)))
 	default:
 		s := e.U.sortOf(t, false)
 		fam := cellFam(s)
